@@ -62,10 +62,20 @@ theorem C02_facts :
     Facts.tlcp.caCallbacksAfterBuiltin = true ∧ Facts.dtlcp.caCallbacksAfterBuiltin = true ∧
     "VerifyConnection" ∈ Facts.tlcp.caResumeSteps ∧ "VerifyConnection" ∈ Facts.dtlcp.caResumeSteps ∧
     Facts.tlcp.caCallbackRefsOutsideRefusal = 0 ∧ Facts.dtlcp.caCallbackRefsOutsideRefusal = 0 ∧
+    -- the pre-master secret of the ECC suites: 48 bytes, the 46 after the version filled from
+    -- Config.Rand by exactly one call, which is io.ReadFull; that buffer is what is encrypted to
+    -- the server's key and returned
+    (∀ st, pmsParamsOf st = { len := 48, randFrom := 2, readFull := true }) ∧
+    Facts.tlcp.caPremasterFills = ["readfull"] ∧ Facts.dtlcp.caPremasterFills = ["readfull"] ∧
+    Facts.tlcp.caPremasterEncryptedAndReturned = true ∧ Facts.dtlcp.caPremasterEncryptedAndReturned = true ∧
     Facts.missing = [] := by
   refine ⟨fun st => ?_, ?_⟩
   · cases st <;> decide
-  · decide
+  · refine ⟨by decide, by decide, by decide, by decide, by decide, by decide, by decide, by decide,
+      by decide, by decide, by decide, by decide, by decide, by decide, by decide, by decide, by decide,
+      by decide, by decide, by decide, by decide, by decide, by decide, by decide, ?_, by decide, by decide,
+      by decide, by decide, by decide⟩
+    intro st; cases st <;> decide
 
 /-- **Full handshake.**  If the client completes, the peer presented two certificates, both
 pass chain / validity / name verification unless verification is disabled, the signed
@@ -514,5 +524,53 @@ example : ∃ t, (termSig Nat (Tbs Nat Nat)).Signed 100 ⟨11, 22, 2000⟩ t := 
 
 example : (fullHandshake (paramsOf .tlcp) (termSig Nat (Tbs Nat Nat)).verify false honestView).outcome = .completed := by
   decide
+
+/-- **The pre-master secret is drawn from the entropy source, all of it.**  For EVERY
+`Config.Rand` — any bytes, any schedule of short reads, one byte per call, zero-length reads
+in between, all of them legal for an `io.Reader` — if the client gets as far as encrypting a
+pre-master secret, that secret is the version followed by the NEXT 46 BYTES OF THE READER'S
+OUTPUT, none of them left at the zero value of the buffer; otherwise the client fails (the
+reader reported an error).  This is the fact of the code behind the law `premaster_secret` of
+`C02_pop_means_key` (only the holder of the encryption private key learns the pre-master secret):
+a secret with bytes the reader never supplied can be found by trial against the client's
+Finished by a peer that holds no key at all. -/
+theorem C02_premaster_from_reader (st : Stack) (vers : Nat) (r : Reader) (pms : List Nat)
+    (h : preMaster (pmsParamsOf st) vers r = some pms) :
+    pms = [vers / 256, vers % 256] ++ r.stream.take 46 ∧ pms.length = 48 ∧
+      pmsDrawn (pmsParamsOf st) r = some 46 := by
+  have hp : pmsParamsOf st = { len := 48, randFrom := 2, readFull := true } := by
+    cases st <;> decide
+  rw [hp] at h ⊢
+  simp only [preMaster, pmsDrawn, pmsTail, if_true, Option.map_map] at h ⊢
+  cases hr : readFull r.sched r.stream (48 - 2) with
+  | none => simp [hr] at h
+  | some t =>
+    obtain ⟨bs, s', sc'⟩ := t
+    obtain ⟨hb, _, hl⟩ := readFull_take _ _ _ _ _ _ hr
+    simp only [hr, Option.map_some, Function.comp, Option.some.injEq] at h ⊢
+    subst h
+    refine ⟨?_, ?_, ?_⟩
+    · rw [hb]; simp
+    · simp [hl]
+    · simp [hl]
+
+/-- non-vacuity: a reader that delivers one byte per call, one that stutters (a zero-length read
+before every byte) and one that delivers half of what is asked for all lead to a pre-master
+secret; a reader that runs dry makes the client fail -/
+example : (preMaster (pmsParamsOf .tlcp) 0x0101 ⟨List.range 100, List.replicate 46 1⟩).isSome = true := by decide
+example : preMaster (pmsParamsOf .dtlcp) 0x0101 ⟨List.range 100, (List.replicate 46 [0, 1]).flatten⟩ =
+    some ([1, 1] ++ List.range 46) := by decide
+example : (preMaster (pmsParamsOf .tlcp) 0x0101 ⟨List.range 100, [23, 12, 6, 3, 1, 1]⟩).isSome = true := by decide
+example : preMaster (pmsParamsOf .tlcp) 0x0101 ⟨List.range 100, List.replicate 45 1⟩ = none := by decide
+
+/-- **… and a source that calls `Read` once and ignores the count breaks it**: with a reader that
+delivers one byte per call the secret is the version, one byte of the reader and 45 zeros — 256
+candidates for a peer without the encryption private key. -/
+theorem C02_premaster_false_with_single_read :
+    ∃ (r : Reader) (pms : List Nat),
+      preMaster { len := 48, randFrom := 2, readFull := false } 0x0101 r = some pms ∧
+      pms = [1, 1, 200] ++ List.replicate 45 0 ∧
+      pmsDrawn { len := 48, randFrom := 2, readFull := false } r = some 1 :=
+  ⟨⟨[200, 201, 202], [1, 1, 1]⟩, _, rfl, by decide, by decide⟩
 
 end Gotlcp.Props.C02
